@@ -2441,3 +2441,31 @@ theorem matchFrom_twice (gs : List Gr) (idx j : Nat) (h : matchFrom gs idx = som
       | false => exact matchFrom_involutive_bwd gs idx j g tgt hg hp h
 
 end Vicut.DelimThms
+namespace Vicut.DelimThms
+open Vicut Vicut.Delim
+
+/-- with the cursor on a delimiter (inside its line) `%` starts from that delimiter -/
+theorem pick_on_delim (s : MS) (g : Gr) (hg : s.gs[s.cur]? = some g) (hall : all.contains g = true)
+    (hl : s.cur < s.eol) : pick s = some s.cur := by
+  have hlt : s.cur < s.gs.length := (List.getElem?_eq_some_iff.mp hg).1
+  have hseg : seg s.gs s.cur s.eol = g :: ((s.gs.take s.eol).drop (s.cur + 1)) := by
+    unfold seg
+    have h2 : s.cur < (s.gs.take s.eol).length := by simp; omega
+    rw [List.drop_eq_getElem_cons h2]
+    congr 1
+    rw [List.getElem_take]
+    simp [List.getElem?_eq_getElem hlt] at hg
+    exact hg
+  unfold pick findFwd
+  rw [hseg]
+  have hmem : g ∈ all := by simpa using hall
+  simp [List.findIdx?_cons, hmem]
+
+/-- … so there `%` is `matchFrom` at the cursor, and by `matchFrom_twice` a second `%` from the place reached
+leads back -/
+theorem findMatching_on_delim (s : MS) (g : Gr) (hg : s.gs[s.cur]? = some g) (hall : all.contains g = true)
+    (hl : s.cur < s.eol) : findMatching s = matchFrom s.gs s.cur := by
+  unfold findMatching
+  rw [pick_on_delim s g hg hall hl]
+
+end Vicut.DelimThms
